@@ -3,8 +3,8 @@
 # Confirms in a scratch worktree /tmp/wt-<ID> (at /repo HEAD): patch applies, suite passes with it, demo fails
 # with it and passes without it.  Prints one JSON line; removes the worktree.
 id=$1; n=$2
-src=/verif/seeded/_incoming/$id
-wt=/tmp/wt-$id
+src=${SEED_SRC:-/verif/seeded/_incoming}/$id
+wt=${WT_PREFIX:-/tmp/wt}-$id
 export TF_CPP_MIN_LOG_LEVEL=3 PYTHONDONTWRITEBYTECODE=1
 git -C /repo worktree remove --force $wt >/dev/null 2>&1; rm -rf $wt
 git -C /repo worktree add -q --detach $wt HEAD || { echo "{\"id\":\"$id\",\"n\":$n,\"error\":\"worktree\"}"; exit 1; }
